@@ -657,7 +657,7 @@ class Evaluator:
                     r0 = self.exec_block_list([s["init"]], frame)
                     if r0 is not _FALL:
                         return r0
-                stmts = [{"k": "forloop", "s": s, "n": 0}] + list(stmts[i + 1:])
+                stmts = [{"k": "forloop", "s": s, "n": 0}, {"k": "loop_end"}] + list(stmts[i + 1:])
                 i = 0
                 continue
             elif k == "forloop":
@@ -695,7 +695,13 @@ class Evaluator:
             elif k in ("nullstmt",):
                 pass
             elif k == "while":
-                stmts = [{"k": "forloop", "s": {"c": s["c"], "inc": None, "body": s["body"]}, "n": 0}] + list(stmts[i + 1:])
+                stmts = [{"k": "forloop", "s": {"c": s["c"], "inc": None, "body": s["body"]}, "n": 0}, {"k": "loop_end"}] + list(stmts[i + 1:])
+                i = 0
+                continue
+            elif k == "do":
+                # do body while (c): one unconditional iteration, then an ordinary while loop
+                stmts = [{"k": "loop_enter"}, s["body"], {"k": "loop_leave"},
+                         {"k": "forloop", "s": {"c": s["c"], "inc": None, "body": s["body"]}, "n": 1}, {"k": "loop_end"}] + list(stmts[i + 1:])
                 i = 0
                 continue
             elif k == "rangefor":
@@ -703,10 +709,34 @@ class Evaluator:
                 unrolled = []
                 for el in els:
                     unrolled += [{"k": "rangebind", "var": s["var"], "el": el}, {"k": "loop_enter"}, s["body"], {"k": "loop_leave"}]
-                stmts = unrolled + list(stmts[i + 1:])
+                stmts = unrolled + [{"k": "loop_end"}] + list(stmts[i + 1:])
                 i = 0
                 continue
-            elif k in ("do", "switch", "break", "continue", "unkstmt"):
+            elif k == "loop_end":
+                pass
+            elif k == "break":
+                # leave the innermost enclosing loop: drop everything up to and including its end marker
+                rest = list(stmts[i + 1:])
+                j = next((q for q, x in enumerate(rest) if isinstance(x, dict) and x.get("k") == "loop_end"), None)
+                if j is None:
+                    raise Inconclusive("break outside a loop in " + frame["f"]["name"])
+                frame["in_loop"] = max(0, frame.get("in_loop", 0) - 1)
+                stmts = rest[j + 1:]
+                i = 0
+                continue
+            elif k == "continue":
+                rest = list(stmts[i + 1:])
+                j = next((q for q, x in enumerate(rest) if isinstance(x, dict) and x.get("k") == "loop_leave"), None)
+                if j is None:
+                    raise Inconclusive("continue outside a loop in " + frame["f"]["name"])
+                stmts = rest[j:]
+                i = 0
+                continue
+            elif k == "switch":
+                stmts = [self.switch_as_if_chain(s, frame)] + list(stmts[i + 1:])
+                i = 0
+                continue
+            elif k in ("unkstmt",):
                 raise Inconclusive("statement kind %s in %s" % (k, frame["f"]["name"]))
             else:
                 self.eval(s, frame)  # expression statement
@@ -733,6 +763,70 @@ class Evaluator:
         frame["locals"][d["i"]] = lv
         if d.get("init") is not None:
             self.init_into(lv, d["init"], frame)
+
+    def switch_as_if_chain(self, s, frame):
+        """switch (c) { case v1: A; break; case v2: case v3: B; default: C; }  ->  if (c == v1) {A} else if (c == v2 || c == v3) {B; C} ...
+        Each label's statement list runs to the next top-level `break` (so fall-through is kept); a `break` nested inside
+        another statement of a case is not supported."""
+        body = s.get("body") or {}
+        seq = list(body.get("s", [])) if body.get("k") == "block" else [body]
+        flat = []          # ("label", value expr or None) / ("stmt", node)
+
+        def add(n):
+            while isinstance(n, dict) and n.get("k") in ("case", "default"):
+                flat.append(("label", n.get("v") if n["k"] == "case" else None))
+                n = n.get("body")
+            if n is not None:
+                flat.append(("stmt", n))
+        for n in seq:
+            add(n)
+
+        def nested_break(n, top=True):
+            if isinstance(n, dict):
+                if n.get("k") == "break" and not top:
+                    return True
+                if n.get("k") in ("for", "while", "do", "rangefor", "switch", "lambda"):
+                    return False
+                return any(nested_break(v, False) for v in n.values())
+            if isinstance(n, list):
+                return any(nested_break(v, False) for v in n)
+            return False
+        groups = []        # (list of label value exprs (None = default), statements)
+        idx = 0
+        while idx < len(flat):
+            if flat[idx][0] != "label":
+                idx += 1
+                continue
+            labels = []
+            while idx < len(flat) and flat[idx][0] == "label":
+                labels.append(flat[idx][1])
+                idx += 1
+            run = []
+            j = idx
+            while j < len(flat):
+                if flat[j][0] == "stmt":
+                    n = flat[j][1]
+                    if isinstance(n, dict) and n.get("k") == "break":
+                        break
+                    if nested_break(n):
+                        raise Inconclusive("break nested inside a statement of a switch case in " + frame["f"]["name"])
+                    run.append(n)
+                j += 1
+            groups.append((labels, run))
+        cond = s["c"]
+        chain = None
+        default_run = next((run for labels, run in groups if None in labels), [])
+        tail = {"k": "block", "s": default_run}
+        for labels, run in reversed(groups):
+            vals = [v for v in labels if v is not None]
+            if not vals:
+                continue
+            test = None
+            for v in vals:
+                eq = {"k": "bin", "op": "==", "l": cond, "r": v, "t": -1}
+                test = eq if test is None else {"k": "bin", "op": "||", "l": test, "r": eq, "t": -1}
+            tail = {"k": "if", "c": test, "then": {"k": "block", "s": run}, "else": tail}
+        return tail
 
     def range_elements(self, s, frame):
         """The element lvalues a range-for visits (std::array / built-in array of known size)."""
@@ -1871,7 +1965,7 @@ def _contains_return(tree):
             if found:
                 return
             if isinstance(n, dict):
-                if n.get("k") == "ret":
+                if n.get("k") in ("ret", "break", "continue"):
                     found.append(1)
                     return
                 if n.get("k") == "lambda":
